@@ -34,7 +34,7 @@ BOUNDS = {
     "gpts_pool": [[16, 16], [15, 18], [20, 12], [9, 14], [24, 24], [13, 13]],
     "projection": ["infinite", "finite"], "parametrization": ["lobato", "kirkland", "peng"],
     "slice_thickness": ["2.0", "0.9", "sequence"],
-    "pixel_shifts": "|s| <= 2.5 * gpts, 4 per case", "repetitions_pool": [[2, 1, 1], [1, 2, 1], [1, 1, 2], [2, 2, 1],
+    "pixel_shifts": "|s| <= 2.5 * gpts, 4-5 per case (incl. whole periods for atoms on the cell faces)", "repetitions_pool": [[2, 1, 1], [1, 2, 1], [1, 1, 2], [2, 2, 1],
                                                                             [3, 2, 1], [2, 3, 2], [1, 1, 3], [1, 1, 1]],
     "cases": {"quick": {"shift": 56, "shift_pbc_false": 8, "tile": 32, "subpixel": 20, "deltas": 16},
               "thorough": {"shift": 400, "shift_pbc_false": 40, "tile": 200, "subpixel": 150, "deltas": 150}},
@@ -83,13 +83,18 @@ def _slices(spec, c, r):
     return float(spec)
 
 
-def _shifts(r, gpts, k=4):
+def _shifts(r, gpts, special=False):
     gx, gy = gpts
     out = [[int(r.integers(1, 4)), int(r.integers(0, 4))],                     # small
            [int(r.integers(gx // 2, gx)), int(r.integers(gy // 2, gy))],       # wraps for most atoms
            [-int(r.integers(1, 2 * gx)), int(r.integers(gy, int(2.5 * gy)))],  # negative / beyond one period
            [gx * int(r.integers(-1, 2)), int(r.integers(1, gy))]]             # whole period in x
-    return out[:k]
+    if special:
+        # atom 0 sits on the face x = 0: a whole period back lands on -cell exactly; a preceding ase wrap() turns that
+        # into x = -2e-16 (tiny negative), the kind of coordinate ase itself produces
+        out[3] = [-gx, int(r.integers(0, gy))]
+        out.append([int(r.integers(1, gx)), gy * int(r.integers(1, 3))])       # whole periods in y, atom 0 at y = b-1e-9
+    return out
 
 
 def cases(tier, seed):
@@ -108,7 +113,7 @@ def cases(tier, seed):
         at = _structure(r, a["nspecies"], a["special"], a["gpts"])
         yield dict(kind="shift", projection=a["projection"], parametrization=a["parametrization"], gpts=a["gpts"],
                    slice_thickness=_slices(a["slices"], at["cell"][2], r), atoms=at, prewrap=a["prewrap"],
-                   shifts=_shifts(r, a["gpts"]))
+                   shifts=_shifts(r, a["gpts"], a["special"]))
     for i in range(nb["shift_pbc_false"]):
         r = rng_for(seed, "shift-pbc-false", i)
         g = BOUNDS["gpts_pool"][i % len(BOUNDS["gpts_pool"])]
